@@ -24,17 +24,26 @@ CLAIMS = {
             'generated code preserves every argument register and the stack, both thunk patterns have one size so retargeting never '
             'overwrites a neighbour, redirection writes go through the protected code-write path, and label targets are rewired at the '
             'same operand positions in every engine. Behavioural equivalence across interfaces and call orders is not decided.', '3 C03'),
-    'C04': ('RF18 flag-producer preservation, RF7e extension-map agreement, RF7g label-operand positions, RF7b call-family coverage',
+    'C04': ('RF18 flag-producer preservation, RF7e extension-map agreement, RF7g label-operand positions, RF7b call-family coverage, '
+            'RF28 alloca consolidation by path-wise linear forms, RF29 simplified memory operands, RF16j label forwarding-pointer scrub',
             'Decides that the link-time shortcut set is disjoint from overflow-flag producers, that result/argument extension maps agree '
-            'with the target\'s, and that label bookkeeping covers every label-carrying opcode. Inlining/renaming logic is not decided.',
+            'with the target\'s, that label bookkeeping covers every label-carrying opcode, that the inliner\'s consolidated alloca size '
+            'covers every offset it hands out, that memory operands it builds are base-only, and that label forwarding pointers used '
+            'while copying a callee are reset on every path. Register renaming and value-level behaviour are not decided.',
             '3 C04'),
-    'C05': ('ABI constant agreement (RF10), trampoline cache-key completeness (RF12), narrowing maps (RF7f), extension map (RF7e)',
+    'C05': ('ABI constant agreement (RF10), block class mapping (RF10b), argument-register counter discipline (RF10c/d), long double '
+            'stack-slot alignment (RF10e), trampoline cache-key completeness (RF12), narrowing maps (RF7f), extension map (RF7e)',
             'Decides that every copy of the SysV argument/return register tables and counts in the FFI trampoline generator, the code '
-            'generator and c2mir agree with the psABI and with each other, and that the trampoline cache key covers every input.',
+            'generator and c2mir agree with the psABI and with each other; that block classes map to the register classes the psABI '
+            'gives them; that register counters advance exactly for arguments passed in registers; that long double stack slots are '
+            '16-byte aligned at every caller/callee/va site; and that the trampoline cache key covers every input.',
             '3 C05'),
-    'C06': ('ABI constant agreement for the callee side (RF10): callee-saved set, save/restore symmetry, vararg save-area layout',
-            'Decides table/constant agreement with the psABI; does not decide register allocation.', '3 C06'),
-    'C10': ('tagged-union discipline in the text writer (RF6), writer/scanner vocabulary agreement (RF7c)',
+    'C06': ('ABI constant agreement for the callee side (RF10/RF10b/RF10e): callee-saved set, vararg save-area layout, incoming long '
+            'double slot alignment; save/restore symmetry of the machine-code templates (RF11); single-return invariant (RF30)',
+            'Decides table/constant agreement with the psABI, template symmetry, and that no pass can create a second return that the '
+            'single epilogue would miss; does not decide register allocation.', '3 C06'),
+    'C10': ('tagged-union discipline in the text writer (RF6), writer/scanner vocabulary agreement (RF7c), scanner input function '
+            '(RF22), label-table scope (RF15)',
             'Decides that the textual writer reads only the active union member on every path and terminates each item kind, and that '
             'every keyword, type name, data element type the writer can print is accepted by the scanner. Numeric round trip of values '
             'is not decided.', '3 C10'),
@@ -42,20 +51,26 @@ CLAIMS = {
             'tagged-union discipline (RF6)',
             'Decides vocabulary agreement between write_* and read_*, that lref labels come from the reader\'s label table, and that no '
             'indeterminate byte reaches the output stream. Value encodings are not decided.', '3 C11'),
-    'C12': ('bounded-write guard coverage in the decoder (RF13)',
+    'C12': ('bounded-write guard coverage in the decoder (RF13, including copy helpers), encoder counter discipline (RF13c), failure exits (RF13e)',
             'Decides the memory-safety clause only: every write into and copy within the decoder\'s fixed buffers is dominated by a '
-            'bound check on the same index expression. Losslessness and detection of every corruption are not decided.', '3 C12'),
-    'C13': ('must-pass-through rules on setup_global / MIR_link / MIR_load_module (RF16c-e), RF6 on add_item',
+            'bound check on the same index expression that covers the whole extent touched, also through copy helpers. Losslessness '
+            'and detection of every corruption are not decided.', '3 C12'),
+    'C13': ('must-pass-through rules on setup_global / MIR_link / MIR_load_module (RF16c-e), interned-key discipline (RF24), RF6 on add_item',
             'Decides necessary structural conditions: the environment entry is overwritten on every load; every import/export/forward '
-            'is bound on every non-error path. History semantics are not decided.', '3 C13'),
-    'C14': ('size-pass/placement-pass agreement in load_bss_data_section (RF16f), store-width agreement (RF7f)',
-            'Decides that both passes use the same kind predicates and per-kind size expressions. Byte contents are not decided.',
+            'is bound on every non-error path from the module item table; the redefinition error is guarded by exactly the reference '
+            'guard set; table probes use interned names. History semantics are not decided.', '3 C13'),
+    'C14': ('size-pass/placement-pass agreement and initialisation obligation in load_bss_data_section (RF16f), provenance of '
+            'resolved addresses in MIR_link (RF16d), store-width agreement (RF7f)',
+            'Decides that both passes use the same kind predicates and per-kind size expressions, that bss is zeroed on every load, and '
+            'that forward/export addresses come from the definition found in the module item table. Byte contents are not decided.',
             '3 C14'),
     'C15': ('operand-mode table vs specification (RF17), call-family coverage (RF7b), error-branch discipline (RF16g/RF19)',
             'Decides the static table that the run-time validator consults, row by row against the documented grammar, and that error '
             'branches call the error function with a specific code.', '3 C15'),
-    'C16': ('duplicate/restore protocol on every generation path (RF16a/b), label-operand positions (RF7g)',
-            'Decides the must-pass-through protocol of generate_func_code and sibling agreement of saved/restored fields.', '3 C16'),
+    'C16': ('duplicate/restore protocol on every generation path (RF16a/b/i), label forwarding-pointer scrub (RF16j), label-operand '
+            'positions (RF7g)',
+            'Decides the must-pass-through protocol of generate_func_code, sibling agreement of saved/restored fields, and that every '
+            'forwarding pointer parked in the original labels while instructions are copied is reset on every path.', '3 C16'),
     'C17': ('who-may-call allocator confinement (RF1), init/finish create-destroy pairing (RF2), realloc old-size contract (RF3), '
             'code-memory write protocol (RF4)',
             'Decides for every function of the three library units that no C-library allocator is referenced outside the default '
